@@ -5,6 +5,12 @@ import json
 BASELINE = "cd /repo && go test -mod=mod -json -vet=off -count=1 -timeout 25m ./..."
 
 CHECKS = {
+ "C11": dict(
+  engine="E3 product enumerator + overlay drivers + independent fragment reader",
+  technique="exhaustive enumeration of generated inputs x every target duration x every tool mode; tools' own entry points run in-process; outputs re-parsed by an independent reader and compared sample by sample",
+  text="Segmenter run() (single-track, -m, -lazy), Resegment(), MediaSegment.Fragmentify and combine-segs' combineInitSegments/combineMediaSegments are driven on every generated input (all sync subsets, duration tuples, chunkings, default modes) for every target duration from 1 tick to total+1; the concatenated per-track sample lists of all outputs (count, bytes, duration, flags, cto, decode time) are compared with the input, and every produced segment must start with a sync sample of the reference track.",
+  note="Inputs stay inside each tool's documented domain; tool errors are tallied, panics and silent differences are violations. Tracks have at most 5/6 samples, two tracks at most. Outputs are parsed by /verif/internal/ref/fragref (independent of mp4ff).",
+  design="3 C11"),
  "C10": dict(
   engine="E3 product enumerator + overlay driver",
   technique="exhaustive enumeration of generated progressive files x every crop duration in ms, tool's own cropMP4 run in-process, output re-parsed by an independent box walker and table expansion",
